@@ -68,6 +68,20 @@ CALLS = [
     "field_equals(r, ['f'], [0.0])", "field_contains(r, ['s'], [''])", "field_contains(r, ['s', 't'], ['a', ''])", "field_contains(r, ['none'], [None], word_boundary=True)",
     "field_regex(r, ['s'], '^$')", "field_regex(r, ['s', 'p'], '^$')", "field_equals(r, ['l'], [[]])", "field_contains(r, ['p'], [''])",
 ]
+# helper x option x letter-case product (the search strings carry upper-case letters, the fields hold mixed case)
+HELPER_OPTS = []
+for _h in ("field_contains", "field_equals"):
+    for _f in ("['s']", "['t']", "['s', 't']", "['l']", "Type.string", "['zz', 't']"):
+        for _s in ("['A']", "['a']", "['B A']", "['b']", "['AB', 'x']", "['A B']"):
+            for _o in ("", ", nocase=True", ", nocase=False", ", word_boundary=True", ", word_boundary=False", ", nocase=True, word_boundary=True",
+                       ", nocase=False, word_boundary=True"):
+                if _h == "field_equals" and "word_boundary" in _o:
+                    continue
+                HELPER_OPTS.append("%s(r, %s, %s%s)" % (_h, _f, _s, _o))
+for _f in ("['s']", "['t']", "['s', 't']", "Type.string"):
+    for _rx in ("'^A'", "'b a'", "'B A$'", "'(?i)b a'", "'A|z'"):
+        HELPER_OPTS.append("field_regex(r, %s, %s)" % (_f, _rx))
+
 # membership in literal lists / tuples of 9 and more constants (a length class of its own for an implementation)
 LONG_LITERALS = [
     "r.ip in ['9.9.9.1', '9.9.9.2', '9.9.9.3', '9.9.9.4', '9.9.9.5', '9.9.9.6', '9.9.9.7', '9.9.9.8', '1.2.3.4']",
@@ -81,6 +95,9 @@ LONG_LITERALS = [
     "Type.net.ipaddress in ['9.9.9.1', '9.9.9.2', '9.9.9.3', '9.9.9.4', '9.9.9.5', '9.9.9.6', '9.9.9.7', '9.9.9.8', '1.2.3.4']",
     "r.sub.n in [11, 12, 13, 14, 15, 16, 17, 18, 19, 1]",
 ]
+for _n in (2, 3, 4, 5, 6, 7, 8, 16, 17, 33, 65):
+    _fill = ", ".join("'9.9.9.%d'" % i for i in range(_n - 1))
+    LONG_LITERALS += ["r.ip in [%s, '1.2.3.4']" % _fill, "r.ip not in (%s, '10.1.2.3')" % _fill, "r.nw in [%s, '10.0.0.0/8']" % _fill.replace("9.9.9.", "9.9.0.0/")]
 GENS = [
     "any(x == 'a' for x in r.l)", "all(x == 'a' for x in r.l)", "any(x in r.s for x in r.l)", "all(x != r.s for x in r.l)",
     "any(x == y for x in r.l for y in [r.s, r.t])", "all(x >= 'a' for x in ['a', 'b'])", "any(n > 1 for n in [r.n, r.m])",
@@ -104,7 +121,7 @@ MUST_REJECT = [
 
 
 def class1():
-    for a in ATOMS + TYPES + CALLS + GENS + LONG_LITERALS:
+    for a in ATOMS + TYPES + CALLS + GENS + LONG_LITERALS + HELPER_OPTS:
         yield a
 
 
